@@ -345,7 +345,7 @@ static Cls cls_dbgrid() {
 // ------------------------------------------------------------------ Vario
 static std::string g_vario(const Vario* v) {
   int nvar = v->getVariableNumber(), ndir = v->getDirectionNumber();
-  std::string s = "(" + sx_i(v->_varioparam.getDimensionNumber()) + " " + sx_i(nvar) + " " + sx_d(v->getScale()) + " " + sx_b(v->getFlagAsym()) + " " + sx_vs(v->getVariableNames()) + " (";
+  std::string s = "(" + sx_i(v->_varioparam.getDimensionNumber()) + " " + sx_i(nvar) + " " + sx_d(v->getScale()) + " " + sx_i(v->getCalcul().getValue()) + " " + sx_vs(v->getVariableNames()) + " (";
   for (int i = 0; i < nvar; i++) { if (i) s += " "; s += "(";
     for (int j = 0; j < nvar; j++) { if (j) s += " "; s += sx_d(v->getVar(i, j)); } s += ")"; }
   s += ") (";
@@ -397,7 +397,7 @@ static Cls cls_vario() {
   c.load = [](const std::string& f) -> ASerializable* { return Vario::createFromNF(f, false); };
   c.G = [](const ASerializable* o) { return g_vario(dynamic_cast<const Vario*>(o)); };
   c.X = [](const ASerializable* o) { auto v = dynamic_cast<const Vario*>(o);
-    std::string s = "(" + sx_i(v->getCalcul().getValue()) + " " + sx_vdd(v->getDates()) + " (";
+    std::string s = "(" + sx_b(v->getFlagAsym()) + " " + sx_vdd(v->getDates()) + " (";
     for (int d = 0; d < v->getDirectionNumber(); d++) { const DirParam& dp = v->getDirParam(d); if (d) s += " ";
       s += "(" + sx_d(dp.getBench()) + " " + sx_d(dp.getCylRad()) + " " + sx_i(dp.getIdate()) + " " + sx_vdd(dp.getBreaks()) + ")"; }
     return s + "))"; };
